@@ -489,9 +489,11 @@ def rows_model(op, directed):
                 ts.add(r[3])
         rank = {t: i for i, t in enumerate(sorted(ts))}
     mp = (lambda t: rank[t]) if rank else (lambda t: t)
+    nm = str if op.get('nodetype_str') else (lambda x: x)      # integer labels read with nodetype=str
     for i, r in enumerate(rows):
         if op['fmt'] == 'snapshots':
             u, v, t, e = r
+            u, v = nm(u), nm(v)
             t2, e2 = mp(t), (mp(e) if e is not None else None)
             if e2 is not None and e2 <= t2:
                 return hm, i
@@ -500,7 +502,7 @@ def rows_model(op, directed):
             hm.apply_add(u, v, t2, e2)
         else:
             u, v, o, t = r
-            log_to_model(hm, [(u, v, o, mp(t))])
+            log_to_model(hm, [(nm(u), nm(v), o, mp(t))])
     return hm, None
 
 
@@ -511,6 +513,8 @@ def do_parse(world, rep_unused, op):
     d = op.get('delimiter')
     conv = CONVERTERS[op.get('conv', 'int')]
     nodetype = conv if op.get('nodekind', 'int') == 'int' else None
+    if op.get('nodetype_str'):
+        nodetype = str
     enc = op.get('encoding', 'utf-8')
     parse = dn.parse_snapshots if fmt == 'snapshots' else dn.parse_interactions
     read = dn.read_snapshots if fmt == 'snapshots' else dn.read_interactions
@@ -572,6 +576,11 @@ def do_parse(world, rep_unused, op):
                                                                          'noisy': {k: on[k] for k in df}})
     cls = dn.DynDiGraph if directed else dn.DynGraph
     check_derived(world, tag, gn, hm, cls, op, nodes_exact=True)
+    if op.get('nodetype_str'):
+        # digit labels read as strings: judged here, but not kept as a replica (the file focuses derive the
+        # node type of later copies from the id pool of the run)
+        world.count('parse.nodetype-str')
+        return {'out': 'ok', 'fault': False, 'cls': 'parse-str', 'keys': []}
     new = Replica(gn, hm, 'parse_' + fmt, None)
     world.add_replica(new, op)
     return {'out': 'ok', 'fault': False, 'cls': 'parse', 'keys': [], 'new': len(world.reps) - 1}
